@@ -81,12 +81,13 @@ def loopPaths : List Path :=
 /-! ### gRPC guns -/
 
 def grpcPath : GrpcOutcome → Path
-  | .unknownMethod => ("void", ["Services=false", "SetProtoCode", "Report"])
-  | .marshalErr => ("void", ["Services=true", "Marshal=err", "SetProtoCode", "Report"])
-  | .badPayload => ("void", ["Services=true", "Marshal=ok", "UnmarshalJSON=err", "SetProtoCode", "Report"])
-  | .invoked _ => ("void", ["Services=true", "Marshal=ok", "UnmarshalJSON=ok", "InvokeRpc", "SetProtoCode", "Report"])
+  | .invalidAmmo => ("void", ["IsInvalid=true", "SetProtoCode", "Report"])
+  | .unknownMethod => ("void", ["IsInvalid=false", "Services=false", "SetProtoCode", "Report"])
+  | .marshalErr => ("void", ["IsInvalid=false", "Services=true", "Marshal=err", "SetProtoCode", "Report"])
+  | .badPayload => ("void", ["IsInvalid=false", "Services=true", "Marshal=ok", "UnmarshalJSON=err", "SetProtoCode", "Report"])
+  | .invoked _ => ("void", ["IsInvalid=false", "Services=true", "Marshal=ok", "UnmarshalJSON=ok", "InvokeRpc", "SetProtoCode", "Report"])
 
-def grpcPaths : List Path := [GrpcOutcome.unknownMethod, .marshalErr, .badPayload, .invoked 0].map grpcPath
+def grpcPaths : List Path := [GrpcOutcome.invalidAmmo, .unknownMethod, .marshalErr, .badPayload, .invoked 0].map grpcPath
 
 /-- gRPC scenario `shootStep`: the code is set after the call and once more by the deferred closure, which reports -/
 def grpcStepPath (pause : Bool) : GrpcStepOutcome → Option Path
